@@ -50,7 +50,7 @@ def usable(en: str, w: dict, nmods: int) -> bool:
 
 def variants_for(k: int, w: dict, nmods: int, tier: str) -> list[list[str]]:
     """[embedding, listing order] pairs.  `int` exercises the isinstance(x, float) branch of Model.fix; the float
-    embeddings rotate with the case number; `rev` lists the rectangles of every module in reverse (trunk last)."""
+    embeddings rotate with the case number; `rev` lists the branches in reverse with the trunk second (see listing)."""
     fl = [e for e in FLOATS if usable(e, w, nmods)]
     out = [["int", "fwd" if k % 2 == 0 else "rev"]]
     n = 1 if tier == "quick" else 2
@@ -65,13 +65,23 @@ def fmt(v) -> str:
     return repr(v)
 
 
+def listing(md: dict, order: str) -> list[int]:
+    """Order in which the rectangles of a module are listed in the document.  `fwd`: trunk, then the branches in
+    the recorded order (ascending along each side).  `rev`: the branches in reverse order with the trunk in second
+    place, so that after create_stog has brought the trunk to the front the branches of a side are met in
+    DESCENDING position (legalfloor has to sort them itself) and the trunk is not the first rectangle."""
+    k = len(md["rects"])
+    if order == "fwd" or k == 1:
+        return list(range(k))
+    br = list(range(k - 1, 0, -1))
+    return [br[0], 0] + br[1:]
+
+
 def build_doc(net: list[dict], emb, order: str) -> str:
     """The FPEF netlist for the lattice netlist under an embedding (centre/size rectangles, YAML flow style)."""
     lines = ["Modules: {"]
     for m, md in enumerate(net):
-        rects = [emb.rect(t) for t in md["rects"]]
-        if order == "rev":
-            rects = rects[::-1]
+        rects = [emb.rect(md["rects"][i]) for i in listing(md, order)]
         rs = ", ".join("[" + ", ".join(fmt(v) for v in r) + "]" for r in rects)
         if md["kind"] == "soft":
             attr = f"area: {fmt(emb.area(md['area']))}"
@@ -150,9 +160,7 @@ def _observe(case: dict, en: str, order: str) -> dict:
                 if sorted(i for i in idx if i is not None) != list(range(len(md["rects"]))):
                     # fall back on the documented order: trunk, then N, S, E, W in listing order
                     mapped = 0
-                    lst = list(range(len(md["rects"])))
-                    if order == "rev":
-                        lst = lst[::-1]
+                    lst = listing(md, order)
                     idx = [0] + [i for s in "NSEW" for i in lst if md["roles"][i] == s]
                 index.append((int(name[1:]) - 1, idx))
             obs = []
